@@ -125,10 +125,17 @@ def run(chk: Check) -> None:
     truthiness_safe(sub, "R01.3")
     _reader_agreement(sub, schema, pf, msgs_all)
     chk.adopt(sub, None, "R01.3")
-    from .c07 import run as _c07
-    sub = chk.sub()
-    _c07(sub)
-    chk.adopt(sub, lambda o: o.rule in ("R07.1", "R07.2"), "R01.5")
+    # save -> load -> deep_eq rests on the writer/reader agreeing with the schema (C02), on the
+    # AuxData codec and table handling (C07, C14), on references resolving to the loaded nodes
+    # (C09) and on the loader accepting and linking what save wrote (C17, without its rules on
+    # how a foreign file is rejected): where one of those is violated, a saved IR does not come
+    # back as it was
+    chk.adopt_property("C02", "R01.6")
+    chk.adopt_property("C07", "R01.7")
+    chk.adopt_property("C09", "R01.8")
+    chk.adopt_property("C14", "R01.9")
+    chk.adopt_property("C17", "R01.10", lambda o: o.rule not in ("R17.1", "R17.2"))
+    chk.adopt_property("C18", "R01.11")
 
 
 # ---------------------------------------------------------------------------
@@ -367,6 +374,31 @@ def _falsy(chk: Check, repo: Repo, schema: Schema) -> None:
                "boolean contexts scanned", 1)
     chk.floor("R01.2", "writer/reader functions scanned", n_funcs, 21)
     chk.extra["boolean_contexts"] = n_ctx
+    # constructors of model classes receive those scalars from the decoders: defaulting one by its
+    # truthiness (``name or default``, ``if not size:``) replaces a legal stored '' / 0 on load
+    node = repo.cls("Node")
+    for c in repo.classes.values():
+        if not (c is node or c.is_subclass_of(node)):
+            continue
+        init = c.methods.get("__init__")
+        if init is None:
+            continue
+        chk.saw(init)
+        params = {p for p in init.param_names()[1:] if p in names}
+        for n in walk_no_nested(init.node):
+            tests: List[ast.AST] = []
+            if isinstance(n, (ast.If, ast.While, ast.IfExp)):
+                tests.append(n.test)
+            elif isinstance(n, ast.BoolOp) and not isinstance(getattr(n, "_parent", None), (
+                    ast.If, ast.While, ast.IfExp, ast.BoolOp, ast.UnaryOp, ast.Assert)):
+                tests.append(n)
+            for t in tests:
+                for op in _bool_operands(t):
+                    if isinstance(op, ast.Name) and op.id in params:
+                        chk.ob("R01.2", "%s:truthiness(%s)" % (init.qualname, op.id), False, init.loc(op),
+                               "%s decides by the truthiness of its parameter '%s' (%s): the decoder passes "
+                               "the stored field, for which '' / 0 is a legal value that would be replaced"
+                               % (init.qualname, op.id, unparse(t)[:50]), 2)
 
 
 # ---------------------------------------------------------------------------
